@@ -31,7 +31,7 @@ func (in *Interp) Snapshot() {
 func (in *Interp) Explore(fn *ssa.Function, opts ExploreOpts) *HarnessRun {
 	h := newHarnessRun(fn.Name())
 	in.H = h
-	work := [][]int{{}}
+	work := []Sib{{}}
 	for len(work) > 0 {
 		if opts.MaxPaths > 0 && h.Paths >= opts.MaxPaths {
 			h.noteInconclusive(fmt.Sprintf("path budget %d exhausted with %d prefixes pending", opts.MaxPaths, len(work)))
@@ -39,13 +39,15 @@ func (in *Interp) Explore(fn *ssa.Function, opts ExploreOpts) *HarnessRun {
 		}
 		prefix := work[len(work)-1]
 		work = work[:len(work)-1]
-		in.runPath(fn, prefix)
+		in.runPath(fn, prefix.Prefix, prefix.Model)
 		work = append(work, in.newSibs...)
 	}
 	return h
 }
 
 func (in *Interp) resetPath(prefix []int) {
+	in.allVars = in.allVars[:0]
+	in.setModel(nil)
 	in.undoTo(0)
 	in.cellID = in.baseCellID
 	in.funcIDs = in.baseFuncIDs
@@ -65,15 +67,18 @@ func (in *Interp) resetPath(prefix []int) {
 	in.curFrame = nil
 	in.Effects = nil
 	in.lastClock = nil
+	in.facts = in.facts[:0]
+	in.factMap = map[string]bool{}
 	in.clockN = 0
 	in.Solver.PopTo(0)
 	in.Solver.Push()
 }
 
-func (in *Interp) runPath(fn *ssa.Function, prefix []int) {
+func (in *Interp) runPath(fn *ssa.Function, prefix []int, model map[string]ModelValue) {
 	h := in.H
 	h.Paths++
 	in.resetPath(prefix)
+	in.setModel(model)
 	defer func() {
 		r := recover()
 		if r == nil {
@@ -317,6 +322,7 @@ func (in *Interp) newNondet(base string, w int) *Term {
 	}
 	v := NewVar(in.nondetName(base), BVSort(w))
 	in.nondets = append(in.nondets, v)
+	in.allVars = append(in.allVars, v)
 	return v
 }
 
